@@ -33,6 +33,8 @@
 #include <vector>
 #include <yaclib_std/thread>
 
+#include <common/own.hpp>  // optional ownership monitor (C03); only the empty macro VX_OWN_PAUSE unless built with -DVX_OWN
+
 namespace vx {
 
 struct Choice {
@@ -140,6 +142,7 @@ class Ctx {
   bool replaying = false;  // follow a recorded choice string exactly (bounds do not apply)
 
   int Choose(char kind, int n) {
+    VX_OWN_PAUSE();
     if (n <= 1) return 0;
     if (replaying) {
       // the recording contains only the questions that were actually asked (bounds may have suppressed others):
@@ -228,18 +231,33 @@ class Ctx {
   // ---- naming
   unsigned long long CurId() const { return yaclib::fault::Scheduler::GetId(); }
   std::string Cur() {
+    VX_OWN_PAUSE();
     auto it = tids.find(CurId());
     return it == tids.end() ? std::string("t?") : it->second;
   }
-  void NameSelf(const std::string& name) { tids[CurId()] = name; }
+  void NameSelf(const std::string& name) {
+    VX_OWN_PAUSE();
+    tids[CurId()] = name;
+  }
   void NameObj(const void* p, const std::string& name, bool is_numeric = false) {
+    VX_OWN_PAUSE();
     objs[p] = name;
     numeric[name] = is_numeric;
   }
-  void ForgetObj(const void* p) { objs.erase(p); }
-  void NameVal(const void* p, const std::string& name) { vals[reinterpret_cast<std::uintptr_t>(p)] = name; }
-  void NameValWord(unsigned long long w, const std::string& name) { vals[w] = name; }
+  void ForgetObj(const void* p) {
+    VX_OWN_PAUSE();
+    objs.erase(p);
+  }
+  void NameVal(const void* p, const std::string& name) {
+    VX_OWN_PAUSE();
+    vals[reinterpret_cast<std::uintptr_t>(p)] = name;
+  }
+  void NameValWord(unsigned long long w, const std::string& name) {
+    VX_OWN_PAUSE();
+    vals[w] = name;
+  }
   std::string Val(const std::string& obj, unsigned long long w) {
+    VX_OWN_PAUSE();
     if (numeric[obj]) return std::to_string(w);
     auto it = vals.find(w);
     if (it != vals.end()) return it->second;
@@ -250,12 +268,14 @@ class Ctx {
   }
 
   void Event(const std::string& payload) {
+    VX_OWN_PAUSE();
     trace.push_back(Cur() + " E " + payload);
     dirty[CurId()] = true;
   }
 
   // ---- hook bodies
   int OnPreempt(int others) {
+    VX_OWN_PAUSE();
     ++injection_points;
     if (!others) return 0;
     auto id = CurId();
@@ -288,6 +308,7 @@ class Ctx {
   }
   void OnAtomic(const void* obj, int op, int so, int fo, unsigned long long arg, unsigned long long expected,
                 unsigned long long result, int ok) {
+    VX_OWN_PAUSE();
     auto it = objs.find(obj);
     if (it == objs.end()) {
       ++unknown_ops;
@@ -311,6 +332,7 @@ class Ctx {
     dirty[CurId()] = true;
   }
   void OnSync(const void* obj, int op, int res) {
+    VX_OWN_PAUSE();
     dirty[CurId()] = true;
     auto it = objs.find(obj);
     if (it == objs.end() && auto_sync) {
@@ -326,6 +348,7 @@ class Ctx {
     trace.push_back(Cur() + " M " + it->second + " " + OpName(op) + " " + std::to_string(res));
   }
   void OnResume(unsigned long long id) {
+    VX_OWN_PAUSE();
     if (trace_resume) {
       auto it = tids.find(id);
       trace.push_back("- S resume " + (it == tids.end() ? std::string("t?") : it->second));
@@ -371,14 +394,20 @@ class Thread {
 
 // Runs one execution. Returns false if the scenario did not finish (every fiber blocked: deadlock).
 template <typename Scenario>
-inline bool RunOnce(Ctx& ctx, Scenario&& scenario) {
+inline bool RunOnceImpl(Ctx& ctx, Scenario&& scenario) {
   ctx.BeginExecution();
   yaclib::fault::Scheduler scheduler;
   yaclib::fault::Scheduler::Set(&scheduler);
   bool done = false;
   auto* root = new yaclib_std::thread{[&] {
     ctx.NameSelf("r");
+#ifdef VX_OWN
+    own::OpenWindow();  // blocks allocated from here on (by any fiber, outside vx's own code) are counted
     scenario();
+    own::CloseWindow();  // the scenario's own objects are out of scope
+#else
+    scenario();
+#endif
     done = true;
   }};
   if (done) {
@@ -390,6 +419,18 @@ inline bool RunOnce(Ctx& ctx, Scenario&& scenario) {
   }
   yaclib::fault::Scheduler::Set(nullptr);
   return done;
+}
+
+template <typename Scenario>
+inline bool RunOnce(Ctx& ctx, Scenario&& scenario) {
+#ifdef VX_OWN
+  own::BeginExecution();
+  bool done = RunOnceImpl(ctx, scenario);  // the scheduler is gone when this returns
+  own::EndExecution(done);                 // quarantine verified and released; a deadlocked execution's blocks are exempt
+  return done;
+#else
+  return RunOnceImpl(ctx, scenario);
+#endif
 }
 
 inline std::uint64_t HashLines(const std::vector<std::string>& lines) {
@@ -436,6 +477,11 @@ struct Options {
   bool has_replay = false;
   std::string only;                  // run only the scenario with this header
   bool verbose = false;
+  // ownership monitor (common/own.hpp; needs a binary built with -DVX_OWN) — off by default
+  bool own = false;                  // --own
+  bool own_poison = true;            // --own-nopoison: quarantine freed blocks but do not fill / verify them
+  long own_bt = -1;                  // --own-bt <i>: print the stack of the i-th counted allocation of every execution
+  std::string own_stats;             // --own-stats <file>: append one JSON line per explored scenario
 };
 
 inline Options ParseOptions(int argc, char** argv) {
@@ -453,7 +499,17 @@ inline Options ParseOptions(int argc, char** argv) {
     else if (a == "--choices") { o.replay_choices = next(); o.has_replay = true; }
     else if (a == "--only") o.only = next();
     else if (a == "-v") o.verbose = true;
+    else if (a == "--own") o.own = true;
+    else if (a == "--own-nopoison") o.own_poison = false;
+    else if (a == "--own-bt") o.own_bt = std::atol(next().c_str());
+    else if (a == "--own-stats") o.own_stats = next();
   }
+#ifndef VX_OWN
+  if (o.own) {
+    std::fprintf(stderr, "--own: this binary was built without -DVX_OWN (the ownership monitor is not compiled in)\n");
+    std::exit(2);
+  }
+#endif
   return o;
 }
 
@@ -494,9 +550,26 @@ class Explorer {
     InstallHooks(&ctx);
     InstallAssertCallbacks();
     if (!o.out.empty()) out = std::fopen(o.out.c_str(), "w");
+#ifdef VX_OWN
+    if (o.own) own::Enable(o.own_poison, o.own_bt);
+#endif
   }
   ~Explorer() {
     if (out) std::fclose(out);
+  }
+
+  // the key under which examples of a violation are rationed: the message itself; with the ownership monitor on, the
+  // message without its numbers (sizes and allocation indices differ from schedule to schedule)
+  static std::string ViolationKind(const std::string& bad) {
+#ifdef VX_OWN
+    if (own::g.enabled) {
+      std::string k;
+      for (char c : bad)
+        if (c < '0' || c > '9') k += c;
+      return k;
+    }
+#endif
+    return bad;
   }
 
   // scenario(): runs inside the root fiber.  monitor(done) -> "" if fine, else a description of the violation.
@@ -528,6 +601,12 @@ class Explorer {
         ctx.nondeterminism = false;
       }
       std::string bad = monitor(done);
+#ifdef VX_OWN
+      if (own::g.enabled) {
+        char own_err[512];  // the ownership finding comes first: it is what this run is for
+        if (own::TakeError(own_err, sizeof own_err)) bad = bad.empty() ? std::string(own_err) : std::string(own_err) + " [and: " + bad + "]";
+      }
+#endif
       if (bad.empty() && !done) bad = "deadlock: the scenario did not finish (every fiber blocked)";
       if (!done) ++stats.deadlocks;
       if (bad.empty() && !ctx.asserts.empty()) {
@@ -553,13 +632,16 @@ class Explorer {
       if (!bad.empty()) {
         ++stats.violations;
         // keep a few examples per distinct message so that a violation that fires in every schedule cannot crowd out others
-        int& seen_msg = violation_kinds[bad];
+        int& seen_msg = violation_kinds[ViolationKind(bad)];
         if (seen_msg++ < 3 && violations.size() < 90) {
           std::string v = "violation: " + bad + "\nscenario: " + header + "\nchoices: " + ctx.ChoiceString() + "\ntrace:";
           for (auto& l : ctx.trace) v += "\n  " + l;
           violations.push_back(v);
         }
       }
+#ifdef VX_OWN
+      if (own::g.enabled) OwnAfterExecution(header, scenario, done);  // on a replay: only remembers (nothing is pending)
+#endif
       if (opt.has_replay) {
         std::printf("run %s\n", header.c_str());
         for (auto& l : ctx.trace) std::printf("%s\n", l.c_str());
@@ -574,7 +656,134 @@ class Explorer {
     }
     if (exhausted && !ctx.random_mode) ++stats.exhausted_scenarios;
     else if (!ctx.random_mode) ++stats.truncated_scenarios;
+#ifdef VX_OWN
+    if (own::g.enabled) OwnEndOfScenario(header, scenario);
+#endif
   }
+
+#ifdef VX_OWN
+  // ---- ownership monitor, leak part (see common/own.hpp): suspects of execution k are judged after execution k+1
+  struct OwnPending {
+    bool has = false;
+    std::uint64_t exec = 0;
+    std::vector<Choice> choices;
+    bool random = false, replaying = false;
+    int pb = 0, wb = 0;
+  };
+  OwnPending own_pending;
+  int own_confirmed_here = 0;  // leaks confirmed in the scenario being explored
+  own::Counters own_flushed{};  // counters at the last --own-stats line
+
+  void OwnRemember(std::uint64_t exec) {
+    own_pending.has = true;
+    own_pending.exec = exec;
+    own_pending.choices.assign(ctx.stack.begin(), ctx.stack.begin() + static_cast<std::ptrdiff_t>(std::min(ctx.pos, ctx.stack.size())));
+    own_pending.random = ctx.random_mode;
+    own_pending.replaying = ctx.replaying;
+    own_pending.pb = ctx.preempt_bound;
+    own_pending.wb = ctx.weak_bound;
+    ++own::g.c.suspects;
+  }
+
+  // re-run the remembered execution twice, exactly as it ran; a block of the first repetition that survives the second
+  // one is left behind by every repetition of this schedule: a leak
+  template <typename Scenario>
+  void OwnConfirm(const std::string& header, Scenario& scenario) {
+    OwnPending pend = std::move(own_pending);
+    own_pending = OwnPending{};
+    ++own::g.c.candidates;
+    auto saved_stack = ctx.stack;
+    auto saved_pos = ctx.pos;
+    bool saved_random = ctx.random_mode, saved_replaying = ctx.replaying, saved_nd = ctx.nondeterminism;
+    int saved_pb = ctx.preempt_bound, saved_wb = ctx.weak_bound;
+    auto saved_exec = ctx.executions;
+    auto saved_ip = ctx.injection_points;
+    ctx.random_mode = false;
+    ctx.replaying = pend.replaying;
+    ctx.preempt_bound = pend.random ? (1 << 30) : pend.pb;  // a random run is never cut off by the bounds
+    ctx.weak_bound = pend.random ? (1 << 30) : pend.wb;
+    ctx.stack = pend.choices;
+    bool d1 = RunOnce(ctx, scenario);
+    std::uint64_t e1 = own::g.exec;
+    ctx.stack = pend.choices;
+    bool d2 = RunOnce(ctx, scenario);
+    own::g.c.confirm_runs += 2;
+    std::size_t n = own::CountLiveOf(e1);
+    if (d1 && d2 && n > 0) {
+      ++own::g.c.confirmed;
+      ++own::g.c.violations;
+      ++own_confirmed_here;
+      char blocks[768];
+      own::DescribeLiveOf(e1, blocks, sizeof blocks);
+      std::string bad = "leak: " + std::to_string(n) + " block(s) allocated during the scenario are still live at quiescence (" +
+                        blocks + "; allocation index = i-th counted allocation of the execution, see --own-bt)";
+      ++stats.violations;
+      int& seen_msg = violation_kinds[ViolationKind(bad)];
+      if (seen_msg++ < 3 && violations.size() < 90) {
+        std::string v = "violation: " + bad + "\nscenario: " + header + "\nchoices: " + ctx.ChoiceString() + "\ntrace:";
+        for (auto& l : ctx.trace) v += "\n  " + l;
+        violations.push_back(v);
+      }
+    } else if (!d1 || !d2) {
+      ++own::g.c.unconfirmed;  // the repetition did not finish: not reproducible as recorded
+    }
+    own::g.error[0] = '\0';  // immediate errors were reported when the execution first ran
+    ctx.stack = std::move(saved_stack);
+    ctx.pos = saved_pos;
+    ctx.random_mode = saved_random;
+    ctx.replaying = saved_replaying;
+    ctx.nondeterminism = saved_nd;
+    ctx.preempt_bound = saved_pb;
+    ctx.weak_bound = saved_wb;
+    ctx.executions = saved_exec;
+    ctx.injection_points = saved_ip;
+  }
+
+  template <typename Scenario>
+  void OwnAfterExecution(const std::string& header, Scenario& scenario, bool done) {
+    const std::uint64_t cur = own::g.exec;
+    OwnPending mine;
+    if (done && own::CountLiveOf(cur) > 0) {  // suspects: remember how this execution ran (its choices are still in ctx)
+      OwnPending keep = std::move(own_pending);
+      OwnRemember(cur);
+      mine = std::move(own_pending);
+      own_pending = std::move(keep);
+    }
+    // the harness's own observers were reset at the start of this execution: what is still there of the previous one is
+    // a candidate and is confirmed (or not) by repetition
+    if (own_pending.has && own::CountLiveOf(own_pending.exec) > 0) {
+      if (own_confirmed_here < 3) OwnConfirm(header, scenario);  // a few replays per scenario are enough
+      else ++own::g.c.unconfirmed;
+    }
+    own_pending = std::move(mine);
+  }
+
+  template <typename Scenario>
+  void OwnEndOfScenario(const std::string& header, Scenario& scenario) {
+    if (own_pending.has && own::CountLiveOf(own_pending.exec) > 0 && own_confirmed_here < 3) OwnConfirm(header, scenario);  // the repetitions are the next generation
+    own_pending = OwnPending{};
+    own_confirmed_here = 0;
+    if (!opt.own_stats.empty()) {
+      if (std::FILE* f = std::fopen(opt.own_stats.c_str(), "a")) {
+        auto& c = own::g.c;
+        auto d = [&](std::uint64_t own::Counters::*m) { return static_cast<unsigned long long>(c.*m - own_flushed.*m); };
+        std::fprintf(f,
+                     "{\"executions\": %llu, \"allocs\": %llu, \"frees\": %llu, \"bytes\": %llu, \"max_live\": %llu, "
+                     "\"max_quarantined\": %llu, \"violations\": %llu, \"suspects\": %llu, \"candidates\": %llu, "
+                     "\"confirm_runs\": %llu, \"confirmed\": %llu, \"unconfirmed\": %llu, \"exempt_deadlock_blocks\": %llu}\n",
+                     d(&own::Counters::executions), d(&own::Counters::allocs), d(&own::Counters::frees), d(&own::Counters::bytes),
+                     static_cast<unsigned long long>(c.max_live), static_cast<unsigned long long>(c.max_quarantined),
+                     d(&own::Counters::violations), d(&own::Counters::suspects), d(&own::Counters::candidates),
+                     d(&own::Counters::confirm_runs), d(&own::Counters::confirmed), d(&own::Counters::unconfirmed),
+                     d(&own::Counters::exempt_deadlock));
+        std::fclose(f);
+      }
+      own_flushed = own::g.c;
+      own::g.c.max_live = own::g.live_now;  // maxima are per scenario in the stats file
+      own::g.c.max_quarantined = own::g.quarantined_now;
+    }
+  }
+#endif
 
   void Report() {
     std::printf("{\"executions\": %llu, \"distinct_traces\": %llu, \"violations\": %llu, \"deadlocks\": %llu, "
@@ -589,6 +798,32 @@ class Explorer {
                 (unsigned long long)stats.nondeterministic, (unsigned long long)stats.max_choices,
                 (unsigned long long)stats.sum_preempts, (unsigned long long)stats.sum_weaks,
                 (unsigned long long)ctx.injection_points, opt.mode.c_str(), opt.preempt_bound, opt.weak_bound);
+#ifdef VX_OWN
+    if (own::g.enabled && own::g.in_exec && !violations.empty()) {
+      // reporting from a crash handler, in the middle of an execution: say what the monitor knows about the blocks freed so far
+      own::g.in_scenario = false;
+      auto poisoned = own::g.quarantined_now;
+      own::FlushQuarantine(true);
+      char own_err[512] = {};
+      if (!own::TakeError(own_err, sizeof own_err) && poisoned != 0 && own::g.poison && violations[0].find("crash") != std::string::npos)
+        std::snprintf(own_err, sizeof own_err, "%llu block(s) freed earlier in this execution were filled with 0xDD and unchanged: "
+                      "a fault on a 0xDD… value is a read through a dangling pointer", (unsigned long long)poisoned);
+      if (own_err[0] != '\0') {
+        auto eol = violations[0].find('\n');
+        violations[0].insert(eol == std::string::npos ? violations[0].size() : eol, std::string(" [ownership monitor: ") + own_err + "]");
+      }
+    }
+    if (own::g.enabled) {  // totals of this process (forked shards: see --own-stats); ignored by the report parsers
+      auto& c = own::g.c;
+      std::printf("OWN {\"executions\": %llu, \"allocs\": %llu, \"frees\": %llu, \"bytes\": %llu, \"live_now\": %llu, "
+                  "\"violations\": %llu, \"suspects\": %llu, \"candidates\": %llu, \"confirm_runs\": %llu, \"confirmed\": %llu, "
+                  "\"unconfirmed\": %llu, \"exempt_deadlock_blocks\": %llu}\n",
+                  (unsigned long long)c.executions, (unsigned long long)c.allocs, (unsigned long long)c.frees,
+                  (unsigned long long)c.bytes, (unsigned long long)own::g.live_now, (unsigned long long)c.violations,
+                  (unsigned long long)c.suspects, (unsigned long long)c.candidates, (unsigned long long)c.confirm_runs,
+                  (unsigned long long)c.confirmed, (unsigned long long)c.unconfirmed, (unsigned long long)c.exempt_deadlock);
+    }
+#endif
     for (auto& s : samples) std::printf("SAMPLE %s\n", s.c_str());
     for (auto& v : violations) std::printf("=====\n%s\n", v.c_str());
     std::fflush(stdout);
